@@ -712,7 +712,7 @@ func c06Workloads(r *Run) {
 			log := NewHandlerLog()
 			InstallPrograms(rig.Impl, log, nil)
 			var wg sync.WaitGroup
-			progs := []string{"echo", "burst:3", "aftereof:2", "early:1", "fail:1:5", "fail:0:13", "burst:0", "early:0"}
+			progs := []string{"echo", "burst:3", "aftereof:2", "early:1", "fail:1:5", "fail:0:13", "burst:0", "early:0", "fail:0:1", "ownctx:1", "fail:1:4"}
 			clients := []string{"sendall", "pingpong", "conc", "earlyclose"}
 			methods := []string{mBidi, mSrvStream, mCliStream}
 			tag := 0
